@@ -23,6 +23,29 @@ func runGentest(args []string) int {
 	if kind == "ownbuild" {
 		return gentestBuild(n)
 	}
+	if kind == "rolesc11" {
+		cnt := map[string]int{}
+		for i := 0; i < n; i++ {
+			p := genOwnProgramOpt(prng.Stream(seed, "c11", "gen", i), i, true, i%2 == 0)
+			for _, r := range p.Roles {
+				cnt[r]++
+			}
+		}
+		var ks []string
+		for k := range cnt {
+			ks = append(ks, k)
+		}
+		sort.Strings(ks)
+		for _, k := range ks {
+			fmt.Printf("%5d %s\n", cnt[k], k)
+		}
+		return 0
+	}
+	if kind == "showc11" {
+		p := genOwnProgramOpt(prng.Stream(seed, "c11", "gen", n), n, true, n%2 == 0)
+		fmt.Println(string(p.Files[p.Root]))
+		return 0
+	}
 	bin, err := buildFrontw(false)
 	if err != nil {
 		infra("%v", err)
